@@ -682,6 +682,10 @@ def run(ctx):
                 key = 'cli:%s:python-error:%s' % (cmd, msg.split()[2].rstrip(':'))
             elif name == 'command':
                 key = 'cli:%s:%s' % (cmd, 'requests-differ' if msg.startswith('requests differ') else 'other')
+        if msg and name == 'options':
+            key = 'options:' + (('python-error:' + msg.split()[2].rstrip(':')) if msg.startswith('Python error') else
+                                '+'.join(w.rstrip(':') for w in msg.split() if w.endswith(':') and w.rstrip(':') in
+                                         ('iface', 'kwargs', 'addr', 'routing', 'session')) or 'other')
         if msg and key not in fails:
             what = msg
             if 'argv' in inp:
